@@ -5,6 +5,7 @@ import common
 from common import CERT_FN
 from interp import core, places, calls_of, roots, Interp, CallV, PhiV, StructV, Via, MutV, Const
 import c10
+import bytepred
 
 PROP = "C13"
 CONFIGS_QUICK = ["K1"]
@@ -44,27 +45,17 @@ def fails_of(crate, fn):
 
 
 def alpha(cfg, crate, rep):
-    # PrintableString
-    fn = T % "PrintableString"
-    rep.fn(fn)
-    a = c10.printable_alphabet(crate)
-    rep.ob("C13.alpha", "%s|PrintableString" % cfg, a == PRINTABLE,
-           "PrintableString admits exactly A-Z a-z 0-9 space ' ( ) + , - . / : = ?", expected="74 characters", found=("missing %s extra %s" % (sorted(chr(x) for x in PRINTABLE - a), sorted(chr(x) for x in a - PRINTABLE))) if a is not None else "not extractable")
-    b = crate.body(fn)
-    loops = [n for n in common.hir_walk(b["hir"]) if n["k"] == "For"]
-    ok = len(loops) == 1 and any((x.get("callee") or "").endswith("as_bytes") for x in common.hir_walk(loops[0]["iter"])) and core(Interp(crate).ev(loops[0]["iter"], {})).r().startswith("value")
-    rep.ob("C13.alpha", "%s|PrintableString|every-byte" % cfg, ok, "the predicate is applied to every byte of the input (loop over value.as_bytes())")
-    rej = [n for n in common.hir_walk(loops[0]["body"]) if n["k"] == "Ret"] if loops else []
-    rep.ob("C13.alpha", "%s|PrintableString|reject-returns-err" % cfg, len(rej) == 1 and "InvalidAsn1String" in str(rej[0]), "any other byte returns Err(InvalidAsn1String)")
-    rep.sample({"rule": "C13.alpha", "type": "PrintableString", "admitted": "".join(sorted(chr(x) for x in (a or set())))})
-    # Ia5String / TeletexString: the single rejection is a per-byte predicate over the whole input
-    for ty, want, text in (("Ia5String", set(range(0x00, 0x80)), "Ia5String rejects exactly the inputs that are not ASCII (U+0000..U+007F)"),
+    # PrintableString / Ia5String / TeletexString: the admitted byte set is computed from the rejection formula
+    for ty, want, text in (("PrintableString", PRINTABLE, "PrintableString admits exactly A-Z a-z 0-9 space ' ( ) + , - . / : = ?"),
+                           ("Ia5String", set(range(0x00, 0x80)), "Ia5String rejects exactly the inputs that are not ASCII (U+0000..U+007F)"),
                            ("TeletexString", set(range(0x20, 0x80)), "TeletexString admits exactly the texts all of whose bytes are in 0x20..=0x7F")):
         fn = T % ty
         rep.fn(fn)
-        I, out, fl = fails_of(crate, fn)
-        acc, why = byte_acceptance(I, fl)
-        rep.ob("C13.alpha", "%s|%s" % (cfg, ty), acc == want, text, expected="%d byte values" % len(want), found=why if acc is None else ("accepts %d byte values; differs at %s" % (len(acc), sorted(acc ^ want)[:8])))
+        acc, why, I = bytepred.byte_acceptance(crate, fn)
+        rep.ob("C13.alpha", "%s|%s" % (cfg, ty), acc == want, text + " (every byte of the input is tested; any other byte returns Err)", expected="%d byte values" % len(want),
+               found=why if acc is None else ("accepts %d byte values via %s; missing %s extra %s" % (len(acc), why, sorted(chr(x) for x in want - acc)[:8], sorted(chr(x) for x in acc - want)[:8])))
+        if acc is not None:
+            rep.sample({"rule": "C13.alpha", "type": ty, "admitted_bytes": len(acc), "via": why})
     # BmpString
     fn = "string::BmpString::from_utf16be"
     rep.fn(fn)
@@ -117,49 +108,6 @@ def alpha(cfg, crate, rep):
         v = core(out["value"])
         stores = isinstance(v, StructV) and v.variant == "Ok" and places(v) == {"vec"} and not [r for r in roots(v) if r.startswith("op:")]
         rep.ob("C13.enc", "%s|%s|stores-input" % (cfg, fn), stores, "the accepted bytes are stored unchanged", found=v.r()[:120])
-
-
-def byte_acceptance(I, fl):
-    """Set of byte values b such that a text consisting of bytes like b is accepted, from the single rejection condition.
-    Recognised: !is_ascii(input); !all(bytes, phi(b)); any(bytes, phi(b)); with phi built from range / comparison tests of b."""
-    if len(fl) != 1:
-        return None, "expected exactly one rejection, found %d" % len(fl)
-    c = fl[0][0]
-    ats = F.atoms(c)
-    if len(ats) != 1:
-        return None, "rejection is not a single whole-input test: %s" % F.show(c)
-    a = ats[0]
-    rejects_when_true = F.evalf(c, {a: True}) and not F.evalf(c, {a: False})
-    rejects_when_false = F.evalf(c, {a: False}) and not F.evalf(c, {a: True})
-    if a[0] == "opaque" and "::is_ascii(input" in str(a[1]) and rejects_when_false:
-        return set(range(0x80)), "is_ascii"
-    if a[0] in ("all", "any") and ("input" in a[1]):
-        vals = I.atom_vals.get(a)
-        if not vals:
-            return None, "per-byte predicate body not recorded"
-        body, elem = vals
-        var = core(elem).r()
-        # the element may be rendered through adaptors (bytes(), iter()): take the variable from the body's atoms
-        vs = set()
-        for b in F.atoms(body):
-            if b[0] == "inrange":
-                vs.add(b[1])
-            elif b[0] == "cmp":
-                vs |= {x for x in (b[2], b[3]) if not str(x).lstrip("-").isdigit()}
-            else:
-                return None, "unrecognised per-byte test %s" % F.show_atom(b)
-        if len(vs) != 1:
-            return None, "per-byte predicate is not over one variable: %s" % sorted(vs)
-        var = next(iter(vs))
-        sat = {x for x in range(256) if F.int_semantics(body, var, x)}
-        if a[0] == "all":
-            if rejects_when_false:
-                return sat, "all(%s)" % F.show(body)
-            return None, "input is rejected when all bytes satisfy the predicate"
-        if rejects_when_true:
-            return set(range(256)) - sat, "!any(%s)" % F.show(body)
-        return None, "input is rejected when no byte satisfies the predicate"
-    return None, "unrecognised whole-input test %s" % F.show_atom(a)
 
 
 def interp_param(name):
@@ -246,7 +194,8 @@ def sink(cfg, crate, rep):
     }
     seen = {}
     for n, p, c, r in S.walk(art.tbs):
-        if n["t"] != "Prim" or n.get("fn") != "write_distinguished_name" or n["kind"] == "OID":
+        # attribute values: primitive leaves inside an RDN SET (whatever function writes them)
+        if n["t"] != "Prim" or n["kind"] == "OID" or not any(lab == "Set" for lab, _ in p):
             continue
         vs = [a[2] for a in F.atoms(c) if a[0] == "variant" and a[1].endswith("[].1") and "issuer" in a[1]]
         if not vs:
@@ -263,7 +212,7 @@ def sink(cfg, crate, rep):
     got = seen.get("PrintableString")
     if got is not None:
         if got[0] == "PrintableString":
-            a = c10.printable_alphabet(crate)
+            a = bytepred.byte_acceptance(crate, T % "PrintableString")[0]
             ok = a is not None and a <= c10.YASNA_PRINTABLE
             rep.ob("C13.sink", "%s|DnValue::PrintableString" % cfg, ok, "written with yasna's write_printable_string whose alphabet must contain the wrapper's", found=sorted(chr(x) for x in (a - c10.YASNA_PRINTABLE)) if a else None, sp=got[3].get("sp"))
         else:
@@ -275,7 +224,8 @@ def sink(cfg, crate, rep):
     # SAN: Ia5String -> IA5String
     n_ia5 = 0
     for n, p, c, r in S.walk(art.tbs):
-        if n["t"] == "Prim" and n["kind"] == "IA5String" and n.get("fn", "").endswith("write_subject_alt_names"):
+        in_san = any(lab == "Seq" and S.oid_key(art.I, node) == "oid:2.5.29.17" for lab, node in p)
+        if n["t"] == "Prim" and n["kind"] == "IA5String" and in_san:
             n_ia5 += 1
             rep.ob("C13.sink", "%s|SanType-ia5" % cfg, any(x.endswith("Ia5String::as_str") for x in calls_of(n["args"][0])), "alternative names of kind IA5String are written from a validated Ia5String")
     rep.floor("C13.sink", "SAN IA5String sites (%s)" % cfg, n_ia5, 1)
